@@ -61,6 +61,14 @@ def enumerate_cases(tier):
             for form in ("callable", "rrel"):
                 for uc in (False, True):
                     yield {"keys": keys, "gr": gr, "form": form, "userclass": uc}
+    # re-registration on the same metamodel object: a model is loaded, register_scope_providers is called again with
+    # another set of keys (it replaces the set), another model is loaded
+    small = [[]] + [[k] for k in KEYS] + [list(p) for p in itertools.combinations(KEYS, 2)]
+    for k1 in [[]] + [[k] for k in KEYS]:
+        for k2 in small:
+            if k1 != k2:
+                for form in ("callable", "rrel"):
+                    yield {"keys": k1, "keys2": k2, "gr": None, "form": form, "userclass": False}
 
 
 def expected_key(case, rule, attr):
@@ -77,6 +85,22 @@ def evaluate(case):
     from textx.exceptions import TextXError
 
     out = Outcome()
+    rounds = [case["keys"]] + ([case["keys2"]] if "keys2" in case else [])
+    mm_holder = {}
+    for rno, keys_now in enumerate(rounds):
+        res = eval_round(out, dict(case, keys=keys_now), mm_holder, rno)
+        if res is not None or out.disc:
+            break
+    if "keys2" in case:
+        out.cls("reregistration")
+        out.nontrivial = True
+    return out
+
+
+def eval_round(out, case, mm_holder, rno):
+    from textx import metamodel_from_str
+    from textx.exceptions import TextXError
+
     exp = {(r, a): expected_key(case, r, a) for r in "AB" for a in "rl"}
     applicable = {(r, a): [k for k in (f"{r}.{a}", f"*.{a}", f"{r}.*", "*.*") if k in case["keys"]] for r, a in exp}
     out.nontrivial = any(len(v) >= 2 for v in applicable.values()) or (
@@ -89,8 +113,11 @@ def evaluate(case):
                 self.parent, self.name, self.r, self.l = parent, name, r, l
 
         classes = [B]
-    mm = metamodel_from_str(grammar(case["gr"]), classes=classes)
+    mm = mm_holder.get("mm")
+    if mm is None:
+        mm = mm_holder["mm"] = metamodel_from_str(grammar(case["gr"]), classes=classes)
     log = []
+    sfx = "/after_reregistration" if rno else ""
 
     def mk(key):
         idx = KEYS.index(key)
@@ -119,7 +146,7 @@ def evaluate(case):
     try:
         m = mm.model_from_str(src)
     except TextXError as e:
-        return out.add("load_failed/" + case["form"], f"{out.sample}: {e}")
+        return out.add("load_failed/" + case["form"] + sfx, f"{out.sample}: {e}")
     conts = {c.name: c for c in m.conts}
 
     def target(k):
@@ -144,12 +171,12 @@ def evaluate(case):
         n = 1 if attr == "r" else 2
         if len(vals) != n or any(v is not want for v in vals):
             kind = "list" if attr == "l" else "single"
-            return out.add(f"precedence/{case['form']}/{kind}/expected={k.replace(rule, 'Rule')}",
+            return out.add(f"precedence/{case['form']}/{kind}/expected={k.replace(rule, 'Rule')}{sfx}",
                            f"{out.sample}: {rule}.{attr} expected provider {k}, resolved through {[who(v) for v in vals]}")
         if case["form"] == "callable":
             called = sorted({e[3] for e in log if e[0] == rule and e[1] == attr})
             want_calls = [] if k in ("default", "grammar") else [k]
             if called != want_calls:
-                return out.add(f"calls/expected={k.replace(rule, 'Rule')}",
+                return out.add(f"calls/expected={k.replace(rule, 'Rule')}{sfx}",
                                f"{out.sample}: {rule}.{attr} providers called {called}, expected {want_calls}")
-    return out
+    return None
